@@ -533,10 +533,6 @@ def wide_layer(run, rng, tier):
     return wmods
 
 
-# more than 200 repetitions of one zero-size element value (NULL, empty OCTET STRING, SEQUENCE of such)
-ZERO_RUN = re.compile(r"(N|O;|S\{[NO;L{}S]*?\})\1{200,}")
-
-
 def refine_disagreement(run, m, line, o, me, r, n, v, d):
     """the reference accepts and the C does not answer RC_OK / same consumed / same value: a violation unless the
     input lies inside a recorded finding (predicate evaluated on the input and the type)"""
@@ -555,7 +551,7 @@ def refine_disagreement(run, m, line, o, me, r, n, v, d):
                 fid = "C16-umax-negative"
         except (ValueError, IndexError):
             pass
-    elif syn in ("oer", "uper") and r["rc"] == "FAIL" and zero_size_elem_list(tree, syn) and re.search(ZERO_RUN, v):
+    elif syn in ("oer", "uper") and r["rc"] == "FAIL" and zero_size_elem_list(tree, syn) and long_uniform_list(v):
         fid = "C04-zero-size-elements-guard"
     if fid:
         run.known_finding(fid, line)
